@@ -1,13 +1,154 @@
 (** C02 — position state survives any make/unmake history intact.
-    Only statements; every proof is [exact <lemma>] into Chess/PositionProofs*.v.
-    Model: Chess/Position.v, Chess/Fen.v (tied to lib/texellib/position.{hpp,cpp}, material.hpp,
-    textio.cpp by the correspondence check); specification: Chess/PositionSpec.v. *)
+    Only statements; every proof is [exact <lemma>] into Chess/Position{Proofs*,Theorems,Examples}.v.
+    Model: Chess/Position.v, Chess/Fen.v (tied to lib/texellib/position.{hpp,cpp}, material.{hpp,cpp},
+    textio.cpp by the correspondence check); specification: Chess/PositionSpec.v
+    ([Consistent] = every redundant field equals its value recomputed from the board, [moveOk] =
+    the shape of a pseudo-legal move, [normEmpty] = forget the dead pieceTypeBB_[EMPTY] entry).
+    [zk] ranges over arbitrary Zobrist tables whose EMPTY row is zero; [zk0] is the table
+    regenerated from the engine (coq/gen/ZobristTables.v). *)
 From Coq Require Import ZArith NArith List Bool.
-From Texel Require Import Chess.Types Chess.Position Chess.PositionSpec Chess.PositionProofs.
+From Texel Require Import Chess.Types Chess.Position Chess.PositionSpec Chess.PositionProofs3
+  Chess.PositionTheorems Chess.Fen Chess.PositionInst Chess.PositionExamples.
 Import ListNotations.
 Local Open Scope N_scope.
 
-Theorem C02_setPiece_consistent : forall zk, emptyKeysZero zk -> forall k p sq pc,
-  ConsistentX zk k p -> sq < 64 -> pc < 13 -> ConsistentX zk k (setPiece zk p sq pc).
-Proof. intros zk H. exact (setPiece_consistent zk). Qed.
-Print Assumptions C02_setPiece_consistent.
+(** taking a move back restores the position bit for bit (all 28 live fields; the EMPTY piece
+    board, which no code reads, is excluded: see C02_unmake_make_emptyBB_refuted) *)
+Theorem C02_unmake_make : forall zk, emptyKeysZero zk -> forall p m,
+  Consistent zk p -> moveOk p m = true ->
+  normEmpty (unMakeMove zk (fst (makeMove zk p m)) m (snd (makeMove zk p m))) = normEmpty p.
+Proof. exact unmake_make. Qed.
+Print Assumptions C02_unmake_make.
+
+(** the same from any position that has the board, side and move number of the made position
+    (covers take-back after null-move style edits), and the invariant is kept *)
+Theorem C02_unmake_make_general : forall zk, emptyKeysZero zk -> forall p m,
+  Consistent zk p -> moveOk p m = true ->
+  Consistent zk (fst (makeMove zk p m)) /\
+  forall q, Consistent zk q -> matchesMade zk p m q ->
+    Consistent zk (unMakeMove zk q m (snd (makeMove zk p m))) /\
+    normEmpty (unMakeMove zk q m (snd (makeMove zk p m))) = normEmpty p.
+Proof. exact make_unmake_general. Qed.
+Print Assumptions C02_unmake_make_general.
+
+(** what normEmpty-equality means field by field *)
+Theorem C02_unmake_make_fields : forall p q, normEmpty p = normEmpty q ->
+  squares p = squares q /\ (forall pc, 1 <= pc -> ptBB p pc = ptBB q pc) /\ whiteBB p = whiteBB q /\ blackBB p = blackBB q /\
+  whiteMove p = whiteMove q /\ halfMoveClock p = halfMoveClock q /\ fullMoveCounter p = fullMoveCounter q /\
+  castleMask p = castleMask q /\ epSquare p = epSquare q /\ hashKey p = hashKey q /\ pHashKey p = pHashKey q /\
+  matId p = matId q /\ wMtrl p = wMtrl q /\ bMtrl p = bMtrl q /\ wMtrlPawns p = wMtrlPawns q /\ bMtrlPawns p = bMtrlPawns q.
+Proof. exact normEmpty_fields. Qed.
+Print Assumptions C02_unmake_make_fields.
+
+(** bit-identical restoration of the whole record is false: pieceTypeBB_[EMPTY] is not restored
+    (witness: start position read from FEN, 1.e4, take back) — finding F10 *)
+Theorem C02_unmake_make_emptyBB_refuted :
+  exists p m, Consistent zk0 p /\ moveOk p m = true /\
+    unMakeMove zk0 (fst (makeMove zk0 p m)) m (snd (makeMove zk0 p m)) <> p.
+Proof. exact unmake_make_emptyBB_refuted. Qed.
+Print Assumptions C02_unmake_make_emptyBB_refuted.
+
+(** representation invariant: preserved by every operation, hence by every history of
+    make / take-back / null-move style edits *)
+Theorem C02_rep_invariant : forall zk, emptyKeysZero zk -> forall ops s0,
+  HInv zk s0 -> HInv zk (fold_left (hstep zk) ops s0).
+Proof. exact history_invariant. Qed.
+Print Assumptions C02_rep_invariant.
+
+Theorem C02_rep_invariant_takeback : forall zk, emptyKeysZero zk -> forall s prev m st,
+  HInv zk s -> h_stack s = (prev, m) :: st -> matchesMadeb zk prev m (h_cur s) = true ->
+  normEmpty (h_cur (hstep zk s HTakeBack)) = normEmpty prev /\ h_stack (hstep zk s HTakeBack) = st.
+Proof. exact takeback_restores. Qed.
+Print Assumptions C02_rep_invariant_takeback.
+
+(** the elementary operations *)
+Theorem C02_rep_invariant_ops : forall zk, emptyKeysZero zk -> forall k p,
+  ConsistentX zk k p ->
+  (forall sq pc, sq < 64 -> pc < 13 -> ConsistentX zk k (setPiece zk p sq pc)) /\
+  (forall sq, sq < 64 -> ConsistentX zk k (clearPiece zk p sq)) /\
+  (forall b, ConsistentX zk k (setWhiteMove zk p b)) /\
+  (forall ep, ConsistentX zk k (setEpSquare zk p ep)) /\
+  (forall cm, ConsistentX zk k (setCastleMask zk p cm)) /\
+  (forall h, ConsistentX zk k (setHalfMoveClock p h)).
+Proof. exact ops_consistent. Qed.
+Print Assumptions C02_rep_invariant_ops.
+
+(** not yet proved: that the outputs of readFEN and deSerialize satisfy the invariant
+    (checked by the decidable [consistentb] on every position of the correspondence run) *)
+Definition C02_rep_invariant_sources_statement : Prop :=
+  forall zk, emptyKeysZero zk ->
+    (forall s p, readFEN zk s = FenOk p -> Consistent zk p) /\
+    (forall d, Forall (fun w => w < 2^64) d -> length d = 5%nat ->
+               Forall (fun pc => pc < 13) (squares (deSerialize zk d)) -> Consistent zk (deSerialize zk d)).
+Theorem C02_rep_invariant_decidable : forall zk p, consistentb zk p = true -> Consistent zk p.
+Proof. exact consistentb_sound. Qed.
+Print Assumptions C02_rep_invariant_decidable.
+
+(** positions equal under the rules have equal keys *)
+Theorem C02_equal_positions_equal_keys : forall zk p q,
+  Consistent zk p -> Consistent zk q -> drawRuleEquals p q = true ->
+  hashKey p = hashKey q /\ pHashKey p = pHashKey q /\ matId p = matId q /\
+  (halfMoveClock p = halfMoveClock q -> forall mp, historyHash zk mp p = historyHash zk mp q) /\
+  (halfMoveClock p = halfMoveClock q -> bookHash zk p = bookHash zk q).
+Proof. exact equal_positions_equal_keys. Qed.
+Print Assumptions C02_equal_positions_equal_keys.
+
+(** material identifier: in range exactly while the black weight is below 2^15 ... *)
+Theorem C02_matid_range : forall zk p,
+  Consistent zk p -> (whiteWeight (squares p) < 65536)%Z ->
+  (fitsInt (matId p) = true <-> (blackWeight (squares p) < 32768)%Z).
+Proof. exact matid_overflow_iff. Qed.
+Print Assumptions C02_matid_range.
+
+(** ... and six black queens (reachable by promotions) exceed it: the C++ [int] accumulator
+    overflows — finding F1 *)
+Theorem C02_matid_overflow_refuted :
+  exists p, Consistent zk0 p /\ readFEN zk0 sixQueensFEN = FenOk p /\ fitsInt (matId p) = false /\
+            matId p = 2321154048%Z /\ wrapInt (matId p) = (-1973813248)%Z.
+Proof. exact matid_overflow_refuted. Qed.
+Print Assumptions C02_matid_overflow_refuted.
+
+(** array indices: partial form (piece codes, e.p. key index, move-count key index, castle masks) *)
+Theorem C02_no_ub_partial : forall zk p s,
+  Consistent zk p -> getPiece p s < 13 /\ (epInb (epSquare p) = true -> epIndex (epSquare p) < 9) /\
+  ((0 <= halfMoveClock p)%Z -> moveCntInb (Z.min (halfMoveClock p) 100) = true) /\
+  castleSqMask s < 16 /\ N.land (N.land (castleMask p) (castleSqMask (mfrom (mkMove s s 0)))) (castleSqMask s) < 16.
+Proof. exact index_ranges. Qed.
+Print Assumptions C02_no_ub_partial.
+Definition C02_no_ub_statement : Prop :=
+  forall zk p m, Consistent zk p -> moveOk p m = true -> (castleMask p < 16) -> epInb (epSquare p) = true ->
+    intsFit p = true -> (halfMoveClock p < INT_MAX)%Z -> (fullMoveCounter p < INT_MAX)%Z ->
+    fitsInt (matId (fst (makeMove zk p m))) = true ->
+    intsFit (fst (makeMove zk p m)) = true /\ epInb (epSquare (fst (makeMove zk p m))) = true /\
+    castleMask (fst (makeMove zk p m)) < 16.
+
+(** serialisation: false outside 8-bit / 16-bit counters (finding F6); the general round trip
+    inside the range is not yet proved (statement below; checked on every serialised position
+    of the correspondence run) *)
+Theorem C02_serialize_roundtrip_refuted :
+  (exists p, readFEN zk0 kk300FEN = FenOk p /\ Consistent zk0 p /\ halfMoveClock p = 300%Z /\
+             halfMoveClock (deSerialize zk0 (serialize p)) = 44%Z) /\
+  (exists p, readFEN zk0 kk70000FEN = FenOk p /\ Consistent zk0 p /\ fullMoveCounter p = 70000%Z /\
+             fullMoveCounter (deSerialize zk0 (serialize p)) = 4464%Z).
+Proof. exact serialize_roundtrip_refuted. Qed.
+Print Assumptions C02_serialize_roundtrip_refuted.
+Definition C02_serialize_roundtrip_statement : Prop :=
+  forall zk p, emptyKeysZero zk -> Consistent zk p -> (0 <= halfMoveClock p < 256)%Z -> (0 <= fullMoveCounter p < 65536)%Z ->
+    castleMask p < 16 -> epInb (epSquare p) = true ->
+    normEmpty (deSerialize zk (serialize p)) = normEmpty p.
+Theorem C02_serialize_roundtrip_partial : normEmpty (deSerialize zk0 (serialize startPos)) = normEmpty startPos.
+Proof. exact serialize_roundtrip_example. Qed.
+Print Assumptions C02_serialize_roundtrip_partial.
+
+(** FEN: statement (not yet proved in general) and the instance for the start position *)
+Definition C02_fen_roundtrip_statement : Prop :=
+  forall zk p, emptyKeysZero zk -> Consistent zk p -> (0 <= halfMoveClock p)%Z -> (0 <= fullMoveCounter p)%Z ->
+    (exists s, readFEN zk s = FenOk p) -> readFEN zk (toFEN p) = FenOk p.
+Theorem C02_fen_roundtrip_partial : toFEN startPos = startFEN /\ readFEN zk0 (toFEN startPos) = FenOk startPos.
+Proof. exact fen_roundtrip_example. Qed.
+Print Assumptions C02_fen_roundtrip_partial.
+
+(** the regenerated tables satisfy the hypothesis of the theorems above *)
+Theorem C02_tables_ok : emptyKeysZero zk0 /\ keysWF zk0 = true.
+Proof. exact (conj zk0_emptyKeysZero zk0_wf). Qed.
+Print Assumptions C02_tables_ok.
